@@ -353,6 +353,17 @@ func C19Case(r *Runner, base string, tape *sim.Tape) *Outcome {
 				out.V = v
 				return out
 			}
+			// "If minifying a file fails ... the exit status is non-zero": a selected input that
+			// cannot be read (every read fails, for good) is such a failure, also in the
+			// middle of a bundle
+			if inj.Kind == "read" && inj.Times < 0 && syscall.Errno(inj.Errno) != syscall.EINTR && co.Res != nil && !co.Killed && len(ex.Jobs) > 0 {
+				out.stat("runs_with_permanent_read_error_judged_for_exit_status", 1)
+				if co.Res.Exit == 0 {
+					out.V = &sim.Violation{Kind: "exit-status", Site: c.Shape + ":io-error-read",
+						Detail: fmt.Sprintf("every read failed with %s from occurrence %d on (%d reads failed), yet the exit status is 0", syscall.Errno(inj.Errno), inj.Nth, fired) + describe()}
+					return out
+				}
+			}
 		}
 	}
 	return out
